@@ -85,11 +85,17 @@ class Handlers(UserDict):
     def __init__(self, initial: Optional[Mapping[str, BaseHandler]] = None) -> None:
         self._resolve: ResolverMethod = self._create_resolver()
 
-        handlers: Mapping[str, BaseHandler] = initial or {
-            MEDIA_JSON: JSONHandler(),
-            MEDIA_MULTIPART: MultipartFormHandler(),
-            MEDIA_URLENCODED: URLEncodedFormHandler(),
-        }
+        # NOTE: only a missing mapping means "the defaults"; an empty one is a
+        #   legitimate value (e.g., when copying emptied handlers).
+        handlers: Mapping[str, BaseHandler] = (
+            {
+                MEDIA_JSON: JSONHandler(),
+                MEDIA_MULTIPART: MultipartFormHandler(),
+                MEDIA_URLENCODED: URLEncodedFormHandler(),
+            }
+            if initial is None
+            else initial
+        )
 
         # NOTE(jmvrbanac): Directly calling UserDict as it's not inheritable.
         # Also, this results in self.update(...) being called.
